@@ -6,7 +6,7 @@ PROP = "C12"
 GEN = []
 VO = ["Properties/C12.vo", "Extract/D_Hash.vo", "Extract/O_C11.vo"]
 MODULE = "Properties.C12"
-THEOREMS = ["c12_single", "c12_partition", "c12_one_batch_per_server", "c12_get_many"]
+THEOREMS = ["c12_single", "c12_partition", "c12_one_batch_per_server", "c12_get_many", "c12_set_then_op", "c12_set_many_partition", "c12_set_many", "c12_set_many_then_op"]
 DRIVER = "D_Hash"
 ORACLE = "O_C11"
 TECHNIQUE = ("Coq proof about a hand-written Gallina model of HashClient routing and batching (any number of servers and keys, "
@@ -14,8 +14,12 @@ TECHNIQUE = ("Coq proof about a hand-written Gallina model of HashClient routing
              "call per batch; model tied to the code by a differential run through the client_class seam")
 LEVEL_TEXT = ("c12_single: a single-key operation contacts exactly the routed server with the bare key; c12_partition/"
               "c12_one_batch_per_server: for every key list the multi-key batches are exactly the keys routed to each server, "
-              "in order, each key once; c12_get_many: one inner call per batch. Partial: 'written by set is found by get' is "
-              "checked by the search against dict-backed inner clients (it composes with C05), not proved.")
+              "in order, each key once; c12_get_many / c12_set_many: one inner call per batch with exactly its keys / items. "
+              "c12_set_then_op, c12_set_many_then_op: a set or set_many followed by ANY single-key operation (get, gets, delete, "
+              "incr, touch, ...) on one of the written keys reaches the same server with the same bare key, and that server's "
+              "set_many batch carried the key's item - so what the server stored under the key (C05) is what the later operation "
+              "finds. Stated for clients with no failover bookkeeping pending (with failures: C13); dict-backed inner servers are "
+              "exercised by the search.")
 LEVEL_NOTE = ("Trusted: Coq kernel; hand model's correspondence with hash.py (differential run: results, per-server call log, "
               "failover tables, for random histories incl. failures and clock advances); placement function abstract in the "
               "theorems (C11 covers the shipped one). No axioms.")
